@@ -18,7 +18,7 @@ RULE = ('Pairs (recorded program P, replayed program P\'): P\' is derived from P
         'truthy, callable}; every output declaration draws fail_on_no_recorded_result in {T,F} and a default in '
         '{None, 0, "", tuple}; replay runs 1-3 times with recording enabled or disabled, over in-memory/file/S3 spy '
         'cassettes. Oracle: reference model of the documented order (recorded main key -> first present fallback key -> '
-        'run original (exactly once) -> substitute (callable is called) -> RecordingKeyError; outputs: recorded result '
+        'run original (exactly once; interceptions made by that original body are themselves answered from the recording) -> substitute (callable is called) -> RecordingKeyError; outputs: recorded result '
         '-> error if failing is on -> default) evaluated per call site; wrapped bodies run in replay exactly for the '
         'run-original cases; the spy cassette sees no create/save/abort during play(); the serialised store is '
         'unchanged; repeated replays give equal playback outputs. Non-trivial: >= 1 requested key absent from the '
@@ -82,11 +82,24 @@ def predict(P2, model):
                 vm = d.get('value_missing') or {'kind': 'unset'}
                 vm_set = vm['kind'] == 'callable' or (vm['kind'] == 'value' and vm['v'] is not None)
                 combos.append('fb=%s/%s run=%s sub=%s' % (
-                    fb['kind'] if fb else 'none', 'present' if via else 'absent', bool(d.get('run_missing')),
+                    fb['kind'] if fb else 'none', 'present' if via else 'absent',
+                    'nested' if d.get('run_missing') and s['beh'] == 'nested' else bool(d.get('run_missing')),
                     vm['kind'] + (':falsy' if vm['kind'] == 'value' and not V.build(vm['v']) else '')))
                 if found is None:
                     if d.get('run_missing'):
                         bodies.append(s['sid'])
+                        if s['beh'] == 'nested':
+                            # the original body itself calls another intercepted input of the service: that inner call
+                            # is an ordinary interception of the replay (answered from the recording)
+                            d0 = P2['ins'][0]
+                            inner = {'t': 'in', 'i': 0, 'a': 1, 'b': 2, 'usekw': False, 'name': 'n1',
+                                     'sid': s['sid'] + '.inner'}
+                            if d0['kind'] == 'property':
+                                inner['a'], inner['b'] = None, None
+                            ik = PS.model_key(P2, inner)
+                            if ik not in model.inputs:
+                                raise_unmodelled = True
+                                return None
                         if s['beh'] == 'raise':
                             sites[s['sid']] = ('e', V.ERRS[s.get('exc', 'Err')].__name__)
                         else:
@@ -150,7 +163,11 @@ def check_pair(ctx, case):
                 raise Violation('recorded operation did not return: %r' % (live,), 'live')
             rid = W.recording_ids[-1]
             model = Model(P, W)
-            want_sites, want_bodies, stopped, absent, combos = predict(P2, model)
+            pred = predict(P2, model)
+            if pred is None:
+                ctx.exclude('nested run-original whose inner call is not answered by the recording (not modelled)')
+                return
+            want_sites, want_bodies, stopped, absent, combos = pred
             if not case['enabled']:
                 rec.disable_recording()
             prev_outputs = None
@@ -254,6 +271,12 @@ def pairs(draw):
                     t_['ret'] = ['TWIN', draw(st.integers(0, 9))]
                     t_['beh'] = 'ret'
                     steps.insert(draw(st.integers(0, len(steps))), t_)
+    # anchor: the recorded program calls input 0 with the arguments that a nested inner call will use (see progsim)
+    anchored = draw(st.booleans())
+    if anchored:
+        d0 = ins[0]
+        steps.append(dict(t='in', i=0, a=None if d0['kind'] == 'property' else 1, b=None if d0['kind'] == 'property' else 2,
+                          usekw=False, beh='ret', ret=['ANCHOR'], name='n1', exc='Err'))
     P = PS.assign_sids(dict(klass=draw(st.sampled_from(['instance', 'class'])), ins=ins, outs=outs, steps=steps,
                             ending='return', result=None, extractor='none'))
     P = PS.normalise_inputs(P)
@@ -290,8 +313,8 @@ def pairs(draw):
         if P2['outs'] and draw(st.booleans()):
             new_steps.insert(pos, draw(PS.out_step(P2['outs'], vals, behs=('ret',))))
         else:
-            new = draw(PS.in_step(P2['ins'], vals, behs=('ret', 'ret', 'raise')))
-            if draw(st.booleans()):
+            new = draw(PS.in_step(P2['ins'], vals, behs=('ret', 'ret', 'raise') + (('nested', 'nested') if anchored else ())))
+            if draw(st.booleans()) or new['beh'] == 'nested':
                 new['a'] = FRESH + [draw(st.integers(0, 2))]
             new_steps.insert(pos, new)
     P2['steps'] = new_steps
